@@ -544,6 +544,11 @@ class Runner:
             self.inconclusive.append(str(e))
             self.say('INCONCLUSIVE property=%s %s' % (self.prop, str(e)[:3000]))
             rc = 2
+            if self.violations:
+                # violations that were already established (reproduced on the g++ build of the real code) before the run had to stop
+                for v in self.violations[:12]:
+                    self.say('VIOLATION property=%s replay=%s' % (self.prop, v))
+                rc = 1
         finally:
             try:
                 self.write_evidence()
